@@ -1,6 +1,7 @@
 package main
 
 import (
+	"os"
 	"fmt"
 	"go/token"
 	"go/types"
@@ -208,6 +209,7 @@ func (e *Engine) doCall(st *State, call *ssa.CallCommon, fnv Val, args []Val, re
 	var hookInstr ssa.Instruction
 	if ci, ok := retTo.(ssa.Instruction); ok && len(st.frames) == 1 {
 		hookInstr = ci
+		e.hookArgs = args
 		e.runHooks(st, fr, hookInstr, key, "before")
 		if st.dead {
 			return
@@ -1219,6 +1221,7 @@ func (e *Engine) mapGet(st *State, m Val, key Val, mt *types.Map) (val Val, ok s
 	}
 	if vk == KAddr {
 		st.envAddr(t)
+		st.typeFact(t, mt.Elem())
 	}
 	return Val{K: vk, T: t, Ty: mt.Elem()}, ok
 }
@@ -1373,7 +1376,7 @@ func (e *Engine) callOrdinal(fn *ssa.Function, instr ssa.Instruction, sub string
 			} else if f := c.Call.StaticCallee(); f != nil {
 				key = keyOf(f)
 			} else {
-				continue
+				key = "<dynamic func value>"
 			}
 			if sub == "*" || strings.Contains(key, sub) {
 				list = append(list, cp{in, in.Pos(), n})
@@ -1409,12 +1412,18 @@ func (e *Engine) runHooks(st *State, fr *Frame, instr ssa.Instruction, key, when
 			continue
 		}
 		env := e.frameEnv(st, fr)
+		for i, a := range e.hookArgs {
+			env.vars[fmt.Sprintf("arg%d", i)] = a
+		}
 		switch h.Kind {
 		case "snap":
 			v, err := e.evalC(st, env, h.Clause.Expr)
 			if err != nil {
 				e.unsupported("atcall snap %s in %s: %v", h.Name, fc.Key, err)
 				continue
+			}
+			if os.Getenv("GOVC_DEBUGM") != "" {
+				fmt.Fprintf(os.Stderr, "snap %s in %s = %s\n", h.Name, fc.Key, v.String())
 			}
 			fr.names[h.Name] = v
 			delete(fr.nameAddr, h.Name)
